@@ -61,6 +61,9 @@ func (j c02Job) text() string {
 		sb.WriteString("  params:\n    a: [\"1\"]\n")
 	case 2:
 		sb.WriteString("  params:\n    a: [\"1\", \"2\"]\n    t: [\"x y\"]\n")
+	case 3:
+		// a parameter declared with an empty list (the blackbox pattern: the value comes from relabeling)
+		sb.WriteString("  params:\n    a: []\n    t: [\"x y\"]\n")
 	}
 	if len(j.prog) > 0 {
 		sb.WriteString("  relabel_configs:\n")
@@ -150,7 +153,7 @@ func c02Jobs(thorough bool) []c02Job {
 	}
 	for _, sch := range []string{"", "https"} {
 		for _, p := range []string{"", "/a/b", "\"/v1/m?f=p#x%2Fy\""} {
-			for params := 0; params < 3; params++ {
+			for params := 0; params < 4; params++ {
 				for _, pg := range progs {
 					out = append(out, c02Job{sch, p, params, pg})
 				}
@@ -364,6 +367,9 @@ func init() {
 				for _, ri := range j.prog {
 					if strings.HasPrefix(c02Rules[ri].name, "param-a") && j.params > 0 {
 						feat = ":relabeled-config-param"
+						if j.params == 3 {
+							feat = ":relabeled-param-declared-with-empty-list"
+						}
 					}
 				}
 				if refFail > 0 {
